@@ -5,3 +5,10 @@ CHECKS["C11"] = dict(
     text="For every AST node class K of the running interpreter (one case each) the real visitor code is executed symbolically on an arbitrary well-shaped node; 'visit returns normally => Safe(node)' is proved with the contract of visit() as induction hypothesis at recursive calls, loops cut by invariants; compile() is shown to reach compile/eval only after visit accepted; env keys = whitelist. No bound on depth or size.",
     note="Trusted: pyvc's model of Python, z3; node shapes as produced by ast.parse (ASDL signatures read from the interpreter); CPython evaluates Safe trees without attribute/import/name access outside the whitelist.",
     ref="DESIGN.md section 7 (C11), A.5")
+FIX_COMMITS.append("bb0b7a2")
+CHECKS["C07"] = dict(
+    level="proof",
+    technique="contract-based deductive verification: per-function contracts on the SER-building code (delta collector, built-in checks, snapshots, clock), VCs from the real AST, z3",
+    text="DeltaCollector.compute (created/updated = sorted set differences under the stable-equality spec), _stable_equal, _build_pre_checks / _build_post_checks / _type_check_entry (PASS iff the stated condition, for arbitrary key lists and type expectations), _context_snapshot (fresh copy, context untouched), _iso_now / _now_timestamp against a UTC clock contract with symbolic zone offset, _start_timing/_end_timing non-negative durations. Loops cut by invariants / closed forms; no bound on key counts.",
+    note="Not under contract yet (listed as unverified): _resolve_params_with_sources provenance lemma, digest chaining in execute(), processor.ref. Assumed: serialize/sha256/safe_repr deterministic (uninterpreted), == on user values pure (PyEq), clock contract datetime.now() = UTC + zone offset.",
+    ref="DESIGN.md section 7 (C07)")
